@@ -25,8 +25,8 @@ namespace ak = awkward;
 
 namespace akb {
   extern std::map<int64_t, std::shared_ptr<ak::Slice>> slices;
-  extern std::mutex released_mutex;
-  extern std::vector<int64_t> released_tokens;
+  extern std::mutex& released_mutex;
+  extern std::vector<int64_t>& released_tokens;
 }
 
 namespace {
